@@ -79,6 +79,18 @@ func Bin(op string, t Type, a, b *Expr) *Expr {
 // EvalOpts selects between readings the description leaves open.
 type EvalOpts struct {
 	LenRunes bool // len(String) counts runes instead of bytes (§3.4 accepts both)
+	// Quirks makes the evaluator emulate the two known LIMIT defects of the unchanged tree (see
+	// Query.eval); the result is then a prediction of the defective output, used only to decide
+	// whether an observed discrepancy is exactly one of those findings.
+	Quirks bool
+	// TableMode: the top level is printed by batch_table / live_table, whose printer applies
+	// LIMIT itself (correctly).
+	TableMode bool
+	// QuirkLikeNL emulates a third known defect: LIKE is compiled to a regexp in which % and _
+	// (".*" and ".") do not match a newline, so a subject containing a newline never matches a
+	// pattern without one. LikeHits (if non-nil) counts the evaluated LIKEs whose outcome that changed.
+	QuirkLikeNL bool
+	LikeHits    *int
 }
 
 // Walk visits every node.
@@ -111,11 +123,16 @@ func (e *Expr) Depth() int {
 	return d
 }
 
-func checkFloat(f float64) (Value, error) {
+func (o EvalOpts) checkFloat(f float64) (Value, error) {
 	if math.IsNaN(f) || math.IsInf(f, 0) {
 		return Value{}, undefined("float result NaN/Inf")
 	}
 	if f == 0 && math.Signbit(f) {
+		if o.Quirks {
+			// the defect emulation may evaluate rows the correct semantics never reaches; it only
+			// has to predict printed values, and -0.0 compares and prints (json) like 0
+			return Float(0), nil
+		}
 		return Value{}, undefined("float result -0.0")
 	}
 	return Float(f), nil
@@ -209,22 +226,22 @@ func (e *Expr) Eval(row Row, o EvalOpts) (Value, error) {
 		}
 		switch e.Op {
 		case OpAdd:
-			return checkFloat(a.F + b.F)
+			return o.checkFloat(a.F + b.F)
 		case OpSub:
-			return checkFloat(a.F - b.F)
+			return o.checkFloat(a.F - b.F)
 		case OpMul:
-			return checkFloat(a.F * b.F)
+			return o.checkFloat(a.F * b.F)
 		default:
 			if b.F == 0 {
 				return Value{}, undefined("float division by zero")
 			}
-			return checkFloat(a.F / b.F)
+			return o.checkFloat(a.F / b.F)
 		}
 	case OpNeg:
 		if e.T.K == KInt {
 			return Int(-vals[0].I), nil
 		}
-		return checkFloat(-vals[0].F)
+		return o.checkFloat(-vals[0].F)
 	case OpAbs:
 		if e.T.K == KInt {
 			if vals[0].I < 0 {
@@ -232,7 +249,7 @@ func (e *Expr) Eval(row Row, o EvalOpts) (Value, error) {
 			}
 			return vals[0], nil
 		}
-		return checkFloat(math.Abs(vals[0].F))
+		return o.checkFloat(math.Abs(vals[0].F))
 	case OpConcat:
 		return Str(vals[0].S + vals[1].S), nil
 	case OpUpper:
@@ -265,7 +282,7 @@ func (e *Expr) Eval(row Row, o EvalOpts) (Value, error) {
 		case KFloat:
 			return vals[0], nil
 		case KInt:
-			return checkFloat(float64(vals[0].I))
+			return o.checkFloat(float64(vals[0].I))
 		}
 		return Value{}, undefined("float() of " + vals[0].K.String())
 	case OpEq:
@@ -292,6 +309,12 @@ func (e *Expr) Eval(row Row, o EvalOpts) (Value, error) {
 		return Bool(found == (e.Op == OpIn)), nil
 	case OpLike, OpNotLike:
 		m := LikeMatch(vals[0].S, e.Pattern)
+		if o.QuirkLikeNL && m && strings.Contains(vals[0].S, "\n") && !strings.Contains(e.Pattern, "\n") {
+			m = false
+			if o.LikeHits != nil {
+				*o.LikeHits++
+			}
+		}
 		return Bool(m == (e.Op == OpLike)), nil
 	}
 	return Value{}, undefined("unknown operator " + e.Op)
